@@ -70,6 +70,11 @@ func reexpress(g *rng.R, w *world.World, r *run.CaseResult) (*world.World, strin
 			if wl.ExtraOwners != "" {
 				r.Ev("owned_pods_with_extra_owner_references", 1)
 			}
+			// pods of one owner may name it under two apiVersions of the same kind (what a cluster upgrade leaves behind)
+			wl.MixedOwnerAPI = wl.NPods >= 2 && g.P(0.4)
+			if wl.MixedOwnerAPI {
+				r.Ev("owned_pods_with_mixed_owner_api_versions", 1)
+			}
 		}
 		desc = append(desc, fmt.Sprintf("%s:%s", wl.Name, k))
 	}
